@@ -1227,7 +1227,7 @@ def gen_history(ctx, h):
         elif u < 0.87:
             steps.append(dict(op='predict', buf=rng.choice(['X', 'A', 'B'])))
         else:
-            steps.append(dict(op='refit', kind=rng.choice(['same', 'rescale0', 'new-y'])))
+            steps.append(dict(op='refit', kind=rng.choice(['same', 'rescale0', 'new-y', 'gridsearch', 'gridsearch'])))
     if not any(s_['op'] == 'refit' and s_['kind'] != 'same' for s_ in steps):
         # every history sees the fitted state change at least once, somewhere in the middle
         steps.insert(rng.randrange(len(steps) // 4, 3 * len(steps) // 4 + 1), dict(op='refit', kind=rng.choice(['rescale0', 'new-y'])))
@@ -1284,7 +1284,12 @@ def run_history(P, hc):
             elif stp['kind'] == 'new-y':
                 yn = yn[rs.permutation(len(yn))] if cfg['label'] != 'LogisticGAM' else 1.0 - yn
             try:
-                quiet(gam.fit, Xn, yn)
+                if stp['kind'] == 'gridsearch':
+                    # the fit is replaced by the winner of a grid search over lam (keep_best): candidates are warm-started
+                    # copies whose state is copied back into the model
+                    quiet(gam.gridsearch, Xn, yn, lam=np.array([0.05, 7.0, 400.0]), progress=False)
+                else:
+                    quiet(gam.fit, Xn, yn)
                 info = fit_info(gam, cfg)
                 twin = copy.deepcopy(gam)
                 ycur = np.array(yn, copy=True)
